@@ -223,7 +223,7 @@ M('span-start-after-first', 'break', ['C10'],
 M('span-end-exclusive', 'break', ['C10'],
   (TR, "            end = max(start, end - 1)", "            end = max(start, end)"))
 M('span-convert-skips-falsy', 'benign', ['C10'],
-  (TR, "        if pos_info:\n            start, end = pos_info", "        if pos_info is not None:\n            start, end = pos_info"))
+  (TR, "        if pos_info and not isinstance(pos_info, _PositionInfo):", "        if pos_info is not None and not isinstance(pos_info, _PositionInfo):"))
 M('span-column-from-line-table', 'break', ['C10'],
   (TR, "            return _Position(index, line_numbers[index], column_numbers[index])", "            return _Position(index, line_numbers[index], line_numbers[index])"))
 
